@@ -30,14 +30,14 @@ Qed.
 
 Section F0I.
 Variable fb : flat.
-Hypothesis HF : frag0 fb = true.
+Hypothesis HF : frag1 fb = true.
 Hypothesis Hq : 0 < f0_q fb.
 
 Local Notation c := (the_crossing fb).
 Local Notation n := (length (fl_design fb)).
 Local Notation q := (f0_q fb).
 Local Notation lo := (f0_leftover fb).
-Local Notation prod := (Enum.product (map (all_levels fb) c)).
+Local Notation prod := (f0_cprod fb).
 Local Notation ubi := (f0_ubi fb).
 
 (** one round: equal rows for every factor force equal components *)
@@ -81,11 +81,12 @@ Proof.
     cbv beta in Hia, Hib.
     destruct (combo_of_spec fb HF Hq tc _ _ Hia) as (_ & Hcl1 & Hcd1 & Hk1).
     destruct (combo_of_spec fb HF Hq tc _ _ Hib) as (_ & Hcl2 & Hcd2 & Hk2).
-    assert (Hcombo : combo_of tc (nlevels fb (nth j ubi 0)) (nth j a2 0%Z) = combo_of tc (nlevels fb (nth j ubi 0)) (nth j b2 0%Z)).
+    assert (Hcombo : combo_of tc (length (f0_L fb (nth j ubi 0))) (nth j a2 0%Z) = combo_of tc (length (f0_L fb (nth j ubi 0))) (nth j b2 0%Z)).
     { apply (nth_ext_len _ _ 0%Z); [lia|]. intros t Ht. rewrite Hcl1 in Ht.
-      pose proof (map_seq_inj _ _ tc Hrow t Ht) as E. inversion E as [E']. unfold ind_level in E'.
+      pose proof (map_seq_inj _ _ tc Hrow t Ht) as E. inversion E as [E']. unfold ind_level, lv_of in E'.
       pose proof (Forall_nth' _ _ t 0%Z Hcd1 ltac:(lia)) as H1. pose proof (Forall_nth' _ _ t 0%Z Hcd2 ltac:(lia)) as H2.
-      cbv beta in H1, H2. lia. }
+      cbv beta in H1, H2.
+      apply (proj1 (NoDup_nth (f0_L fb (nth j ubi 0)) 0) (f0_L_nodup fb HF (nth j ubi 0))) in E'; lia. }
     rewrite <- Hk1, <- Hk2, Hcombo. reflexivity. }
   subst. reflexivity.
 Qed.
